@@ -16,7 +16,7 @@ PiecesT == {0, 1, 2, B \div 2, B - 9, B - 8, B - 1, B, B + 1, 2 * B - 1, 2 * B, 
 Pieces == IF TIER = "quick" THEN PiecesQ ELSE PiecesT
 Step == depth < DEPTH /\ depth' = depth + 1
 DoUpd(i, n) == Step /\ len[i] >= 0 /\ len' = [len EXCEPT ![i] = len[i] + n]
-DoClone(i, j) == Step /\ len[i] >= 0 /\ len[j] < 0 /\ len' = [len EXCEPT ![j] = len[i]]
+DoClone(i, j) == Step /\ len[i] >= 0 /\ j # i /\ len' = [len EXCEPT ![j] = len[i]]      \* clone() into an empty slot or clone_from() over a live one
 DoReset(i) == Step /\ len[i] >= 0 /\ len' = [len EXCEPT ![i] = 0]
 DoFinReset(i) == Step /\ len[i] >= 0 /\ len' = [len EXCEPT ![i] = 0]
 DoFin(i) == Step /\ len[i] >= 0 /\ (\E j \in Inst : j # i /\ len[j] >= 0) /\ len' = [len EXCEPT ![i] = -1]
